@@ -1696,6 +1696,9 @@ def check(ctx):
     check_json(ctx)
     check_archive(ctx)
     check_scalars(ctx)
+    rep.rule('E7', 'the exported result classes are plain records: what the exporters read is what the query stored (no converter / rewriting hook)')
+    from ..records import check_plain_records
+    check_plain_records(rep, ctx.model, 'E7', ['gambit.query.QueryResults', 'gambit.query.QueryResultItem', 'gambit.query.QueryInput', 'gambit.classify.ClassifierResult', 'gambit.classify.GenomeMatch'], 'the values the exporters write')
 
 
 from ..variants import V  # noqa: E402
